@@ -4,7 +4,13 @@
   * the kind stored in a scalar fits its constructor;
   * elements / entries / pointees inhabit the declared element, key and value types;
   * the dynamic value of an interface is never itself an interface;
-  * map keys are pairwise distinct (as Go's `==` on the boxed keys decides it).
+  * the key type of a map is comparable (`GoType.comparable`: pointers, arrays of comparable
+    elements, structs, complex numbers, channels, interface types, … are all admitted; slices, maps,
+    funcs are not);
+  * map keys are pairwise distinct (as Go's `==` on the boxed keys decides it; `keysDistinct`, a
+    hypothesis of the order-independence theorems, not part of `wf`).
+  Values of a NON-EMPTY interface type (fields / elements / keys held in such a slot) stay outside
+  the universe: `other .interface …` is not well-formed as a VALUE; as a map's key TYPE it is.
   The harness only ever sends values for which `GoVal.wf` is true (the driver reports a
   violation of this as `WF?` instead of an outcome).
 -/
@@ -15,6 +21,12 @@ namespace Bexpr.Go
 def keysDistinct : List (GoVal × GoVal) → Bool
   | [] => true
   | (k, _) :: es => !(es.any fun e => fkeyEq e.1 k) && keysDistinct es
+
+/-- a key held in a slot of NON-EMPTY interface type (`map[error]V`): opaque — no path part is ever
+    converted to such a type, so the key is never compared -/
+def isNEIfaceKey : GoVal → Bool
+  | .other k _ _ => k == .interface
+  | _ => false
 
 mutual
 def GoVal.wf : GoVal → Bool
@@ -28,7 +40,7 @@ def GoVal.wf : GoVal → Bool
   | .ptr elem (some v) => v.typeOf == elem && v.wf
   | .slice _ elem _ xs => wfList elem xs
   | .array elem xs => wfList elem xs
-  | .map _ kt vt _ es => wfEntries kt vt es
+  | .map _ kt vt _ es => wfEntries kt vt es && kt.comparable
   | .struct _ fs => wfFields fs
   | .iface none => true
   | .iface (some v) => v.kind != .interface && v.wf
@@ -38,7 +50,8 @@ def wfList (elem : GoType) : List GoVal → Bool
   | x :: xs => x.typeOf == elem && x.wf && wfList elem xs
 def wfEntries (kt vt : GoType) : List (GoVal × GoVal) → Bool
   | [] => true
-  | (k, v) :: es => k.typeOf == kt && k.wf && v.typeOf == vt && v.wf && wfEntries kt vt es
+  | (k, v) :: es =>
+    k.typeOf == kt && (k.wf || isNEIfaceKey k) && v.typeOf == vt && v.wf && wfEntries kt vt es
 def wfFields : List (Field × GoVal) → Bool
   | [] => true
   | (_, v) :: fs => v.wf && wfFields fs
@@ -48,5 +61,47 @@ end
 def Any.wf : Any → Bool
   | none => true
   | some v => v.kind != .interface && v.wf
+
+/-- the static type mentions a non-empty interface type -/
+def GoType.mentionsNEI : GoType → Bool
+  | .other k _ => k == .interface
+  | .ptr e => e.mentionsNEI
+  | .slice _ e => e.mentionsNEI
+  | .array _ e => e.mentionsNEI
+  | .map _ k v => k.mentionsNEI || v.mentionsNEI
+  | _ => false
+
+mutual
+/-- The value lies OUTSIDE the modelled universe: it holds a value of a non-empty interface type
+    (`fmt.Stringer`, `error`, …) as an element / field / pointee / map value, or has a container type
+    whose element type mentions one.  The only admitted place is a map's KEY type (and its opaque
+    keys).  The driver answers `U` on such data; the harness still runs the real code on them. -/
+def GoVal.outside : GoVal → Bool
+  | .other k _ _ => k == .interface
+  | .ptr e none => e.mentionsNEI
+  | .ptr e (some v) => e.mentionsNEI || v.outside
+  | .slice _ e _ xs => e.mentionsNEI || outsideList xs
+  | .array e xs => e.mentionsNEI || outsideList xs
+  | .map _ kt vt _ es =>
+    (match kt with
+      | .other _ _ => false
+      | kt => kt.mentionsNEI) || vt.mentionsNEI || outsideEntries es
+  | .struct _ fs => outsideFields fs
+  | .iface (some v) => v.outside
+  | _ => false
+def outsideList : List GoVal → Bool
+  | [] => false
+  | x :: xs => x.outside || outsideList xs
+def outsideEntries : List (GoVal × GoVal) → Bool
+  | [] => false
+  | (k, v) :: es => (!isNEIfaceKey k && k.outside) || v.outside || outsideEntries es
+def outsideFields : List (Field × GoVal) → Bool
+  | [] => false
+  | (_, v) :: fs => v.outside || outsideFields fs
+end
+
+def Any.outside : Any → Bool
+  | none => false
+  | some v => v.outside
 
 end Bexpr.Go
